@@ -1,4 +1,5 @@
 import datetime as dt
+from decimal import Decimal
 from mindsdb_sql.parser.ast.base import ASTNode
 from mindsdb_sql.parser.utils import indent
 
@@ -19,6 +20,11 @@ class Constant(ASTNode):
             out_str = f"\'{val}\'"
         elif isinstance(self.value, bool):
             out_str = 'TRUE' if self.value else 'FALSE'
+        elif isinstance(self.value, float) and ('e' in repr(self.value) or 'E' in repr(self.value)):
+            # the lexers read only positional notation: print 1e-07 as 0.0000001 (exactly, no rounding)
+            out_str = format(Decimal(repr(self.value)), 'f')
+            if '.' not in out_str:
+                out_str += '.0'
         elif isinstance(self.value, (dt.date, dt.datetime, dt.timedelta)):
             out_str = "'{}'".format(str(self.value).replace("'", "''"))
         else:
